@@ -243,6 +243,15 @@ func wkt(wkt string) (*SR, error) {
 	if math.IsNaN(sr.Lat0) {
 		sr.Lat0 = sr.Lat1
 	}
+	// The conic and azimuthal equal-area projections are often written with
+	// longitude_of_center instead of central_meridian; it is their central
+	// meridian (as in proj4js for Albers).
+	if math.IsNaN(sr.Long0) && !math.IsNaN(sr.LongC) {
+		switch sr.Name {
+		case "Albers_Conic_Equal_Area", "Albers", "Equidistant_Conic", "Lambert_Azimuthal_Equal_Area":
+			sr.Long0 = sr.LongC
+		}
+	}
 
 	return sr, err
 }
